@@ -256,6 +256,12 @@ func runEngine2(o opts) int {
 	sort.Strings(bnames)
 	for _, n := range bnames {
 		msg := broken[n]
+		if o.prop != "C05" || !strings.Contains(msg, "Scope") {
+			// whether accepted configurations compile is not this property's claim (and not a
+			// simulation question): counted in the evidence, not judged. For C05 a compile error in
+			// the scope wiring means the declared scope cannot take effect at all.
+			continue
+		}
 		m1.violations = append(m1.violations, &bsim.Violation{Property: o.prop, Sig: "generated-code-does-not-compile:" + compileErrClass(msg), Mode: "compile",
 			Detail: "the configuration " + n + " was accepted by `build` but its generated container does not compile against the pinned runtime:\n" + tailStr(msg, 1500) + "\n" + cfgOf(gendir, n)})
 	}
